@@ -105,6 +105,19 @@ inline std::string json_field(const std::string &text, const std::string &key) {
 // number of open file descriptors of this process (the directory stream used for counting is not included)
 inline int open_fds() { int n = 0; if (DIR *d = opendir("/proc/self/fd")) { while (dirent *e = readdir(d)) if (e->d_name[0] != '.') n++; closedir(d); n--; } return n; }
 
+// CPU seconds (user + system) a process has used so far; -1 if it cannot be read
+inline double cpu_seconds(pid_t pid) {
+    char path[64]; snprintf(path, sizeof path, "/proc/%d/stat", (int)pid);
+    FILE *f = fopen(path, "r"); if (!f) return -1;
+    char buf[1024]; size_t n = fread(buf, 1, sizeof buf - 1, f); fclose(f); buf[n] = 0;
+    char *rp = strrchr(buf, ')'); if (!rp) return -1;
+    long ut = 0, st = 0;
+    if (sscanf(rp + 2, "%*c %*d %*d %*d %*d %*d %*u %*u %*u %*u %*u %ld %ld", &ut, &st) != 2) return -1;
+    return (double)(ut + st) / (double)sysconf(_SC_CLK_TCK);
+}
+// A step of the code under test that burns this much CPU without finishing is taken for non-termination (the steps of these harnesses take milliseconds).
+constexpr double STEP_CPU_LIMIT_S = 20;
+
 inline std::string read_file(const std::string &p) { std::ifstream f(p, std::ios::binary); std::stringstream ss; ss << f.rdbuf(); return ss.str(); }
 inline std::string tail(const std::string &s, size_t n) { return s.size() > n ? s.substr(s.size() - n) : s; }
 
@@ -118,6 +131,7 @@ inline void parallel(const std::vector<std::function<void()>> &tasks) {
     std::vector<pid_t> pid(n, -1); std::vector<int> status(n, 0);
     size_t next = 0, running = 0, done = 0;
     std::set<size_t> retried;
+    std::vector<std::string> seen_marker(n); std::vector<double> marker_cpu(n, -1); std::vector<bool> hung(n, false), finished(n, false); double last_scan = 0;
     fflush(stdout); fflush(stderr);
     while (done < n) {
         while (next < n && running < (size_t)std::max(1, opt.jobs)) {
@@ -126,16 +140,34 @@ inline void parallel(const std::vector<std::function<void()>> &tasks) {
             if (p == 0) { shm = &pool[next]; tasks[next](); shm->done = 1; _exit(0); }
             pid[next++] = p; running++;
         }
-        int st; pid_t r = waitpid(-1, &st, 0);
-        if (r <= 0) break;
+        int st; pid_t r = waitpid(-1, &st, WNOHANG);
+        if (r < 0) break;
+        if (r == 0) {
+            // nobody finished: look for a task that is stuck inside one step (same marker, CPU time still growing)
+            usleep(20000);
+            double tn = now_s();
+            if (tn - last_scan > 2) {
+                last_scan = tn;
+                for (size_t i = 0; i < next; i++) if (pid[i] > 0 && !finished[i]) {
+                    std::string mk = pool[i].marker; double cpu = cpu_seconds(pid[i]);
+                    if (mk != seen_marker[i]) { seen_marker[i] = mk; marker_cpu[i] = cpu; continue; }
+                    if (cpu >= 0 && marker_cpu[i] >= 0 && cpu - marker_cpu[i] > STEP_CPU_LIMIT_S) {
+                        kill(pid[i], SIGKILL); hung[i] = true;
+                    }
+                }
+            }
+            continue;
+        }
         for (size_t i = 0; i < n; i++) if (pid[i] == r) {
+            finished[i] = true;
+            if (hung[i]) { status[i] = st; running--; done++; break; }
             // SIGKILL never comes from the code under test (sanitizers abort, wild accesses fault): it is the environment (the kernel's OOM killer was seen doing this when
             // several explorations ran at once).  The task is run again from its start, once, before its death is taken for a finding.
             if (WIFSIGNALED(st) && WTERMSIG(st) == SIGKILL && !pool[i].done && retried.insert(i).second) {
                 memset(&pool[i], 0, sizeof(Shm)); pool[i].exhaustive = 1;
                 pid_t p = fork();
                 if (p == 0) { shm = &pool[i]; tasks[i](); shm->done = 1; _exit(0); }
-                pid[i] = p;
+                pid[i] = p; finished[i] = false; seen_marker[i].clear(); marker_cpu[i] = -1;
                 break;
             }
             status[i] = st; running--; done++;
@@ -148,6 +180,7 @@ inline void parallel(const std::vector<std::function<void()>> &tasks) {
         if (!c.exhaustive) shm->exhaustive = 0;
         for (int k = 0; k < c.nsamples && k < 2; k++) sample(c.samples[k]);
         for (int k = 0; k < c.nviol; k++) violation(c.viol[k].sig, c.viol[k].msg, c.viol[k].hist);
+        if (hung[i]) { shm->exhaustive = 0; violation("hang", fmt("hang: one step used more than %.0f s of CPU time without finishing (non-termination)", STEP_CPU_LIMIT_S), c.marker); continue; }
         if (!c.done) {
             shm->exhaustive = 0;
             violation("crash", WIFSIGNALED(status[i]) ? fmt("crash: killed by signal %d (see the replay for the sanitizer report)", WTERMSIG(status[i])) : fmt("crash: exit status %d", WEXITSTATUS(status[i])), c.marker);
@@ -219,6 +252,7 @@ inline int run_main(int argc, char **argv, const Harness &h) {
         printf("REPLAY harness=%s history=%s\n  outcome: %s\n", h.name.c_str(), jesc(hist).c_str(), r.what.c_str());
         std::string err = read_file(errfile);
         if (!err.empty()) printf("--- stderr ---\n%s\n", tail(err, 5000).c_str());
+        if (json_field(read_file(opt.replay), "signature") == "hang" && r.what == "timeout") { printf("  (the recorded finding is non-termination: the step did not finish within the replay limit either)\n"); return 1; }
         return r.violated ? 1 : 0;
     }
 
@@ -234,11 +268,18 @@ inline int run_main(int argc, char **argv, const Harness &h) {
         shm->done = 1;
         _exit(0);
     }
-    int st = 0; bool killed = false;
+    int st = 0; bool killed = false, hung_step = false;
+    std::string seen_marker; double marker_cpu = -1, last_scan = 0;
     for (;;) {
         pid_t r = waitpid(pid, &st, WNOHANG);
         if (r == pid) break;
         if (opt.deadline > 0 && now_s() - t_start > opt.deadline + 60) { kill(-pid, SIGKILL); kill(pid, SIGKILL); waitpid(pid, &st, 0); killed = true; break; }
+        if (now_s() - last_scan > 2) {      // stuck inside one step of the code under test? (the exploring process itself; its forked tasks are watched by parallel())
+            last_scan = now_s();
+            std::string mk = shm->marker; double cpu = cpu_seconds(pid);
+            if (mk != seen_marker) { seen_marker = mk; marker_cpu = cpu; }
+            else if (!mk.empty() && cpu >= 0 && marker_cpu >= 0 && cpu - marker_cpu > STEP_CPU_LIMIT_S) { kill(-pid, SIGKILL); kill(pid, SIGKILL); waitpid(pid, &st, 0); hung_step = true; break; }
+        }
         usleep(2000);
     }
     struct Viol { std::string sig, msg, hist, replay; bool confirmed; };
@@ -247,6 +288,7 @@ inline int run_main(int argc, char **argv, const Harness &h) {
     for (int i = 0; i < snap.nviol; i++) viols.push_back({snap.viol[i].sig, snap.viol[i].msg, snap.viol[i].hist, "", false});
     bool exhaustive = snap.exhaustive && snap.done;
     if (killed) { inconclusive.push_back("exploration exceeded its deadline and was stopped; history in flight: " + std::string(snap.marker)); }
+    else if (hung_step) { exhaustive = false; viols.push_back({"hang", fmt("hang: one step used more than %.0f s of CPU time without finishing (non-termination)", STEP_CPU_LIMIT_S), snap.marker, "", false}); }
     else if (!snap.done) {
         std::string err = read_file(errfile), what;
         size_t p = err.find("ERROR: AddressSanitizer"); if (p == std::string::npos) p = err.find("runtime error:"); if (p == std::string::npos) p = err.find("Assertion");
@@ -263,6 +305,7 @@ inline int run_main(int argc, char **argv, const Harness &h) {
     for (auto &v : viols) {
         ReplayOutcome a = isolated([&] { mark(v.hist); h.replay(v.hist); }, errfile), b = isolated([&] { mark(v.hist); h.replay(v.hist); }, errfile);
         v.confirmed = a.violated && b.violated;
+        if (v.sig == "hang") v.confirmed = a.what == "timeout" && b.what == "timeout";      // the same step does not finish within the replay limit either
         if (v.confirmed && v.msg.find(a.what) == std::string::npos && a.what.compare(0, 5, "crash") == 0) v.msg += " | on replay: " + a.what;
         if (!v.confirmed) inconclusive.push_back("violation did not reproduce on replay (" + a.what + " / " + b.what + "): " + v.sig + " history=" + v.hist);
         uint64_t hh = 1469598103934665603ULL; for (unsigned char c : v.hist) hh = (hh ^ c) * 1099511628211ULL;
